@@ -376,6 +376,21 @@ func (g *gen) histConc(o concOpts) {
 	close(stop)
 	aux.Wait()
 	c.uninstall()
+	// calibration: every transaction must have produced an acquisition and a
+	// release event; a silent lock hook is an infrastructure error, not a verdict
+	nacq := 0
+	for _, e := range c.lockEvs {
+		if e["ev"] == "acq" {
+			nacq++
+		}
+	}
+	txmu.Lock()
+	ntx := len(txs)
+	txmu.Unlock()
+	if nacq < ntx-2 {
+		fmt.Fprintf(os.Stderr, "harness: the lock hook reported %d acquisitions for %d transactions: hooks not compiled in or removed\n", nacq, ntx)
+		os.Exit(2)
+	}
 	g.s.Panics += int(panics)
 	// a final observation and reopen of every database, as the last "transactions"
 	for d := 0; d < o.ndb; d++ {
